@@ -8,3 +8,5 @@ import SsqlVerif.Props.C01
 #print axioms C01.accepted_and_passed_is_emitted
 #print axioms C01.processing_time_exactly_once
 #print axioms C01.facts_watermark
+#print axioms C01.exactly_once_counting_any_lateness
+#print axioms C01.purge_keeps_pending_rows
